@@ -72,6 +72,18 @@ def run(prog, chk):
     eofc = [n for (n, c) in fc.nodes_with_call(name="self._send_eof")]
     ok = ok and len(eofc) == 1 and fc.dominated(mr, guard_nodes=eofc)
     chk.ob("R2.close-test-and-set", "_close_internal", ok, ci.loc, "(None, None) once closed / not active; otherwise EOF-if-needed, CLOSE, _set_closed()")
+    # closing always passes through _send_eof (which latches eof_sent): the call is not hidden in a conditional
+    # expression - a channel closed without the latch can emit an EOF after its CLOSE later (stdin.close(), shutdown)
+    uncond = True
+    calls_ = [c for c in walk_no_defs(ci.node) if M.is_call(c, name="self._send_eof")]
+    for c in calls_:
+        p_ = getattr(c, "_parent", None)
+        while p_ is not None and not isinstance(p_, ast.stmt):
+            if isinstance(p_, (ast.IfExp, ast.BoolOp, ast.Lambda, ast.ListComp, ast.GeneratorExp, ast.SetComp, ast.DictComp)):
+                uncond = False
+            p_ = getattr(p_, "_parent", None)
+    chk.ob("R2.close-latches-eof-sent", "_close_internal", bool(calls_) and uncond and len(eofc) == 1 and fc.dominated(mr, guard_nodes=eofc, complete=True), ci.loc,
+           "self._send_eof() is evaluated on every closing path (%d call(s), %s)" % (len(calls_), "unconditional" if uncond else "inside a conditional expression"))
     scl = prog.func("Channel._set_closed")
     w = [(t.attr, unparse(v)) for (st, t, v) in attr_writes(scl.node)]
     chk.ob("R2.set-closed", "_set_closed", ("closed", "True") in w, scl.loc, "closed = True")
